@@ -180,7 +180,8 @@ def strict_tag_decoders(chk, crates, sc, prop):
 
 
 def strict_suffix(pr, e, crates, depth=0):
-    e = strip_ref(e)
+    from discharge import unq
+    e = strip_ref(unq(e))
     if depth > 4:
         return False
     if e[0] == "call" and e[1] in INDEX:
